@@ -800,6 +800,8 @@ def _walk(root):
 
 
 def shrink_candidates(case):
+    if case.get("live"):
+        return
     steps = case["steps"]
     for i, s in enumerate(steps):
         if s["p"] != "ok":
